@@ -101,7 +101,7 @@ type attempt =
 
 let canon l = List.sort compare (List.map (fun o -> (o.dst, o.text)) l)
 let max_cands = 400
-let max_leaves_per_step = 50000
+let max_leaves_per_step = 400000
 
 let () =
   let ic = open_in Sys.argv.(1) in
